@@ -1,3 +1,5 @@
+pub mod c05;
+pub mod c15;
 pub mod c16;
 
 use crate::engine::*;
@@ -5,6 +7,8 @@ use std::path::Path;
 
 pub fn run(ctx: &Ctx) -> i32 {
     match ctx.id.as_str() {
+        "C05" => c05::run(ctx),
+        "C15" => c15::run(ctx),
         "C16" => c16::run(ctx),
         other => {
             eprintln!("unknown property {other}");
@@ -33,6 +37,8 @@ pub fn replay(ctx: &Ctx, path: &Path) -> i32 {
     let check = check.split('@').next().unwrap_or("").to_string();
     let tape = unhex(v["tape_hex"].as_str().unwrap_or(""));
     let r = match ctx.id.as_str() {
+        "C05" => c05::replay(ctx, &check, &tape),
+        "C15" => c15::replay(ctx, &check, &tape),
         "C16" => c16::replay(ctx, &check, &tape),
         other => {
             eprintln!("unknown property {other}");
@@ -51,6 +57,24 @@ pub fn replay(ctx: &Ctx, path: &Path) -> i32 {
                 println!("{}", b.rendered);
             }
             1
+        }
+    }
+}
+
+pub fn gen_debug(kind: &str, tape: &[u8]) -> String {
+    use crate::gen;
+    let mut t = Tape::new(tape);
+    match kind {
+        "commented" => gen::text::commented_program(&mut t).with_comments(),
+        "cf" => {
+            let mut ids = gen::ast::Ids::default();
+            let template = t.chance(128);
+            let d = gen::prog::gen_def(&mut t, &gen::prog::Profile::cf(template), &mut ids, "F");
+            gen::print::render_plain(&gen::print::print_def(&d, false)).src
+        }
+        _ => {
+            let f = gen::full::small_file(&mut t);
+            gen::print::render_plain(&gen::print::print_file(&f, false)).src
         }
     }
 }
